@@ -996,11 +996,122 @@ Example ex_rejects :
 Proof. vm_compute. repeat split; reflexivity. Qed.
 
 (* ------------------------------------------------------------------ the serial queue *)
-(* The serial queue loses jobs: a job added by the running job after the destructor has queued its sentinel is
-   never executed although the queue is destroyed "normally" (worker joined).  Witness replayed on the implementation
-   by harness/py/props/c16.py (corpus scenario serial-add-after-shutdown). *)
-Theorem serial_drop_refuted :
-  exists ls s, saccepts sinit ls = Some s /\ ss_exited s = true /\ ss_running s = None /\
+Ltac sproj := cbn [ss_ops ss_running ss_finished ss_added ss_cancelled ss_shutdown ss_exited] in *.
+
+Definition opt_list (o : option job) : list job := match o with Some j => [j] | None => [] end.
+
+Definition sinv (s : sstate) : Prop :=
+  NoDup (ss_added s) /\
+  Permutation (ss_added s) (sjobs (ss_ops s) ++ opt_list (ss_running s) ++ ss_finished s) /\
+  (In SNil (ss_ops s) -> ss_shutdown s = true) /\
+  (ss_exited s = true -> ss_shutdown s = true /\ ss_running s = None /\ sjobs (ss_ops s) = []).
+
+Lemma sjobs_app a b : sjobs (a ++ b) = sjobs a ++ sjobs b.
+Proof. unfold sjobs. apply flat_map_app. Qed.
+
+Lemma snorm_jobs ops : sjobs (snorm true ops) = sjobs ops.
+Proof.
+  unfold snorm. destruct ops as [|[j|] r]; try reflexivity. destruct r as [|o r]; [reflexivity|].
+  rewrite sjobs_app. cbn [sjobs flat_map app]. rewrite app_nil_r. reflexivity.
+Qed.
+
+Lemma snorm_In x ops : In x (snorm true ops) -> In x ops.
+Proof.
+  unfold snorm. destruct ops as [|[j|] r]; try (intros H; exact H). destruct r as [|o r]; [intros H; exact H|].
+  intros H. apply in_app_or in H. destruct H as [H|[H|[]]]; [right; exact H|left; exact H].
+Qed.
+
+Lemma sinv_init : sinv sinit.
+Proof. unfold sinv, sinit. sproj. cbn. repeat split; try constructor; try discriminate. intros []. Qed.
+
+Lemma sstep_sinv s a s' : sinv s -> sstep s a = Some s' -> sinv s'.
+Proof.
+  intros [Ind [Ip [In3 Ie]]] Hs. unfold sstep in Hs.
+  destruct a as [j fj|j| | | | |]; cbn [sstep_gen] in Hs.
+  - (* SAdd *)
+    destruct (mem_n j (ss_added s)) eqn:Hm; [discriminate|]. apply mem_n_false in Hm.
+    destruct (if fj then match ss_running s with Some _ => true | None => false end else negb (ss_shutdown s)) eqn:Hc; [|discriminate].
+    injection Hs as Hs. subst s'. unfold sinv. sproj.
+    assert (Hne : ss_exited s = false).
+    { destruct (ss_exited s) eqn:E; [|reflexivity]. destruct (Ie eq_refl) as [E1 [E2 _]].
+      destruct fj; [rewrite E2 in Hc; discriminate|rewrite E1 in Hc; discriminate]. }
+    split; [constructor; assumption|]. split.
+    + rewrite sjobs_app. cbn [sjobs flat_map app]. rewrite <- app_assoc. cbn [app]. apply Permutation_cons_app. exact Ip.
+    + split.
+      * intros H. apply in_app_or in H. destruct H as [H|[H|[]]]; [exact (In3 H)|discriminate].
+      * rewrite Hne. discriminate.
+  - (* STake *)
+    destruct (ss_exited s) eqn:Hex; [discriminate|].
+    destruct (ss_running s) as [rj|] eqn:Hrun; [discriminate|].
+    destruct (snorm true (ss_ops s)) as [|[k|] r] eqn:Hn; try discriminate.
+    destruct (k =? j) eqn:E; [|discriminate]. apply N.eqb_eq in E. subst k.
+    injection Hs as Hs. subst s'. unfold sinv. sproj.
+    pose proof (snorm_jobs (ss_ops s)) as Hj. rewrite Hn in Hj. cbn [sjobs flat_map app] in Hj. fold (sjobs r) in Hj.
+    split; [exact Ind|]. split.
+    + eapply Permutation_trans; [exact Ip|]. rewrite <- Hj. cbn [opt_list app]. apply Permutation_middle.
+    + split; [|discriminate]. intros H. apply In3. apply snorm_In. rewrite Hn. right. exact H.
+  - (* SFinish *)
+    destruct (ss_running s) as [rj|] eqn:Hrun; [|discriminate].
+    injection Hs as Hs. subst s'. unfold sinv. sproj.
+    split; [exact Ind|]. split.
+    + eapply Permutation_trans; [exact Ip|]. cbn [opt_list app]. apply Permutation_refl.
+    + split; [exact In3|]. intros H. destruct (Ie H) as [_ [E _]]. discriminate.
+  - (* SSpawn *)
+    destruct (ss_running s); [|discriminate]. destruct (ss_cancelled s); [discriminate|].
+    injection Hs as Hs. subst s'. unfold sinv. repeat split; try assumption; apply Ie; assumption.
+  - (* SCancel *)
+    injection Hs as Hs. subst s'. unfold sinv. sproj. repeat split; try assumption; apply Ie; assumption.
+  - (* SShutdown *)
+    destruct (ss_shutdown s) eqn:Hsh; [discriminate|].
+    injection Hs as Hs. subst s'. unfold sinv. sproj.
+    split; [exact Ind|]. split.
+    + rewrite sjobs_app. cbn [sjobs flat_map app]. rewrite app_nil_r. exact Ip.
+    + split; [reflexivity|]. intros H. destruct (Ie H) as [E _]. rewrite Hsh in E. discriminate.
+  - (* SExit *)
+    destruct (ss_exited s) eqn:Hex; [discriminate|].
+    destruct (ss_running s) as [rj|] eqn:Hrun; [discriminate|].
+    destruct (ss_ops s) as [|[k|] r] eqn:Hops; try discriminate.
+    destruct r as [|o r]; [|discriminate].
+    injection Hs as Hs. subst s'. unfold sinv. sproj.
+    split; [exact Ind|]. split; [exact Ip|]. split; [intros []|].
+    intros _. split; [apply In3; left; reflexivity|]. split; reflexivity.
+Qed.
+
+Lemma saccepts_sinv ls : forall s s', sinv s -> saccepts s ls = Some s' -> sinv s'.
+Proof.
+  induction ls as [|a ls IH]; intros s s' Hi Ha; unfold saccepts in *; cbn [saccepts_gen] in Ha.
+  - injection Ha as Ha. subst. exact Hi.
+  - destruct (sstep_gen true s a) as [s1|] eqn:Hs; [|discriminate].
+    eapply IH; [eapply sstep_sinv; [exact Hi|exact Hs]|exact Ha].
+Qed.
+
+(* The repaired serial queue: when the worker has left, every job ever added has finished exactly once and nothing is
+   left behind the shutdown marker. *)
+Theorem serial_exactly_once ls s :
+  saccepts sinit ls = Some s -> ss_exited s = true ->
+  Permutation (ss_finished s) (ss_added s) /\ NoDup (ss_finished s) /\ slost s = [].
+Proof.
+  intros Ha Hex. destruct (saccepts_sinv _ _ _ sinv_init Ha) as [Ind [Ip [_ Ie]]].
+  destruct (Ie Hex) as [_ [Hrun Hjobs]]. rewrite Hrun, Hjobs in Ip. cbn [opt_list app] in Ip.
+  split; [apply Permutation_sym; exact Ip|]. split.
+  - apply (Permutation_NoDup Ip). exact Ind.
+  - unfold slost. rewrite Hex. exact Hjobs.
+Qed.
+
+(* at any time: nothing finishes twice, only added jobs finish *)
+Theorem serial_finished_subset ls s :
+  saccepts sinit ls = Some s -> NoDup (ss_finished s) /\ incl (ss_finished s) (ss_added s).
+Proof.
+  intros Ha. destruct (saccepts_sinv _ _ _ sinv_init Ha) as [Ind [Ip _]].
+  pose proof (Permutation_NoDup Ip Ind) as Hnd. split.
+  - apply NoDup_app_remove_l in Hnd. apply NoDup_app_remove_l in Hnd. exact Hnd.
+  - intros x Hx. apply (Permutation_in _ (Permutation_sym Ip)). apply in_or_app. right. apply in_or_app. right. exact Hx.
+Qed.
+
+(* Before the repair (6dc9f85) the serial queue lost jobs: a job added by the running job after the destructor had
+   queued its marker was never executed although the queue was destroyed normally (worker joined). *)
+Theorem serial_v0_refuted :
+  exists ls s, saccepts_v0 sinit ls = Some s /\ ss_exited s = true /\ ss_running s = None /\
                In 1 (ss_added s) /\ ~ In 1 (ss_finished s) /\ slost s = [1].
 Proof.
   exists [SAdd 0 false; STake 0; SShutdown; SAdd 1 true; SFinish; SExit]. eexists.
@@ -1009,8 +1120,9 @@ Proof.
   - intros [H|[]]. discriminate.
 Qed.
 
-(* ... while everything queued before the destructor started does run: same prefix, destruction after the add *)
-Example serial_no_drop_instance :
-  exists s, saccepts sinit [SAdd 0 false; STake 0; SAdd 1 true; SShutdown; SFinish; STake 1; SFinish; SExit] = Some s /\
+(* the same run on the repaired queue: the worker cannot leave yet, takes job 1, then leaves *)
+Example serial_repaired_instance :
+  saccepts sinit [SAdd 0 false; STake 0; SShutdown; SAdd 1 true; SFinish; SExit] = None /\
+  exists s, saccepts sinit [SAdd 0 false; STake 0; SShutdown; SAdd 1 true; SFinish; STake 1; SFinish; SExit] = Some s /\
             ss_exited s = true /\ ss_finished s = [1; 0] /\ slost s = [].
-Proof. eexists. split; [vm_compute; reflexivity|]. repeat split; reflexivity. Qed.
+Proof. split; [vm_compute; reflexivity|]. eexists. split; [vm_compute; reflexivity|]. repeat split; reflexivity. Qed.
